@@ -324,6 +324,11 @@ func (vt *Model) cht(ps int) {
 		vt.cursor.col = ts
 		n += 1
 	}
+	// There may be tab stops beyond the right margin (the defaults do not
+	// depend on the width)
+	if vt.cursor.col > vt.margin.right {
+		vt.cursor.col = vt.margin.right
+	}
 }
 
 // Erase in Display (ED) CSI Ps J
